@@ -475,7 +475,7 @@ func runRace(c caseT, raw json.RawMessage) (r resT) {
 		cmd.Stdin = bytes.NewReader(in)
 		var stdout, stderr bytes.Buffer
 		cmd.Stdout, cmd.Stderr = &stdout, &stderr
-		cmd.Env = append(os.Environ(), "GORACE=halt_on_error=0 log_path="+logPath, "GOTRACEBACK=all")
+		cmd.Env = append(os.Environ(), "GORACE=halt_on_error=0 atexit_sleep_ms=0 log_path="+logPath, "GOTRACEBACK=all")
 		done := make(chan error, 1)
 		if err := cmd.Start(); err != nil {
 			r.HarnessErr = "spawn: " + err.Error()
@@ -522,7 +522,7 @@ func runRace(c caseT, raw json.RawMessage) (r resT) {
 				if i := strings.Index(st, "fatal error: "); i >= 0 {
 					msg = strings.SplitN(st[i+13:], "\n", 2)[0]
 				}
-				r.add(false, map[string]any{"divergence": "data_race", "location": locationOf([]string{frame})},
+				r.add(false, map[string]any{"divergence": "data_race", "location": locationOf(sdkFrames(st))},
 					map[string]any{"ckind": c.CKind, "origin": c.Origin, "ops": progNames(c.Progs), "goroutines": c.N,
 						"fatal": msg, "frame": frame, "stderr": clip(st)})
 			default:
@@ -551,6 +551,26 @@ func runRace(c caseT, raw json.RawMessage) (r resT) {
 	}
 	r.Keys = append(r.Keys, fmt.Sprintf("%s/%s/%s/n%d", c.CKind, c.Origin, strings.Join(progNames(c.Progs), "+"), c.N))
 	return r
+}
+
+// sdkFrames lists the SDK functions on the stack of the goroutine a fatal error was raised in (the first
+// stack of the dump).
+func sdkFrames(stderr string) []string {
+	var out []string
+	started := false
+	for _, l := range strings.Split(stderr, "\n") {
+		if strings.HasPrefix(l, "goroutine ") {
+			if started {
+				break
+			}
+			started = true
+			continue
+		}
+		if started && strings.HasPrefix(l, sdkPrefix) {
+			out = append(out, strings.SplitN(strings.TrimPrefix(l, sdkPrefix), "(0x", 2)[0])
+		}
+	}
+	return out
 }
 
 func progNames(progs [][]callT) []string {
@@ -585,7 +605,11 @@ func raceTrials(c caseT, out *oneshotOut) {
 		c.N = 2
 	}
 	sig := func(op, div string) map[string]any {
-		return map[string]any{"kind": info.kind, "op": op, "divergence": div}
+		kind := info.kind
+		if kind == "units0" {
+			kind = "units" // one family: unit definitions with and without multipliers share the parser
+		}
+		return map[string]any{"kind": kind, "op": op, "divergence": div}
 	}
 	add := func(sg map[string]any, detail map[string]any) {
 		for _, m := range out.Mismatches {
